@@ -2,15 +2,25 @@ import DeepModel.Driver.GuardRun
 import DeepModel.Model.Plugins
 open Lean Proto GuardRun Plugins
 
+/-- switch: null | "text" | true/false | number;  order: null | number | "unusable" -/
 def parseSpec (j : Json) : Except String Spec := do
-  pure ⟨← getNat j "id", ← getBool j "import_ok", ← getBool j "ctor_ok", ← getBool j "active",
-        ← getOptInt j "order"⟩
+  let sw : Option PyVal := match j.getObjValD "switch" with
+    | .str s => some (.text s)
+    | .bool b => some (.bool b)
+    | .num n => some (.int n.mantissa)
+    | _ => none
+  let ord : Order := match j.getObjValD "order" with
+    | .str _ => .unusable
+    | .num n => .value (some n.mantissa)
+    | _ => .value none
+  pure ⟨← getNat j "id", ← getBool j "import_ok", ← getBool j "ctor_ok", sw, ord⟩
 
 def handleOne (j : Json) : Except String Json := do
   match (← getStr j "op") with
   | "load" =>
     let specs ← (← getArr j "specs").toList.mapM parseSpec
-    pure (Json.mkObj [("loaded", Json.arr ((load specs).map (fun s => toJson s.id)).toArray)])
+    pure (Json.mkObj [("loaded", Json.arr ((load specs).map (fun s => toJson s.id)).toArray),
+                      ("raises", toJson (loadRaises specs))])
   | "exec" => handleExec j
   | op => throw s!"unknown op {op}"
 
